@@ -232,7 +232,7 @@ theorem rollN_pcontig {r : Ring} {j : Nat} (h : PContig r j) (m : Nat) :
 
 def initRing (n : Nat) (interval S : Int) (pushAfter agg : Nat) : Ring :=
   { buckets := (List.replicate n emptyBucket).set 0 (⟨S, S + interval, false, []⟩ : Bucket),
-    head := 0, interval := interval, pushAfter := pushAfter, agg := agg, dia := [] }
+    head := 0, interval := interval, pushAfter := pushAfter, agg := agg, dia := [], bflows := List.replicate n [] }
 
 theorem initRing_pcontig (n : Nat) (interval S : Int) (pushAfter agg : Nat) (hn : 0 < n) (hi : 0 < interval) :
     PContig (initRing n interval S pushAfter agg) 1 ∧ (initRing n interval S pushAfter agg).n = n := by
@@ -2439,5 +2439,202 @@ theorem newRing_estate (n : Nat) (interval now : Int) (pushAfter agg : Nat) (hn 
     EState (newRing n interval now pushAfter agg) [] :=
   ⟨⟨[], newRing_ginv n interval now pushAfter agg hn hi⟩, newRing_hinv n interval now pushAfter agg hn hi,
    { nodup := List.nodup_nil, lt := fun s hs => (by cases hs), pushed := fun s hs => (by cases hs) }⟩
+
+/-! ### Statistics: the per-bucket flow lists are the log of accepted flows, bucket by bucket -/
+
+def logOf (log : Log) (b : Bucket) : List (Nat × Int) :=
+  (log.filter (fun e => b.contains e.2.1)).map (fun e => (e.1, e.2.2))
+
+/-- every ring slot's flow list is exactly the accepted flows whose start time lies in that bucket (newest first) -/
+def FInv (r : Ring) (log : Log) : Prop := ∀ i, i < r.n → r.bflows.getD i [] = logOf log (r.bucket i)
+
+theorem markPushed_bflows (r : Ring) (idxs : List Nat) : (r.markPushed idxs).bflows = r.bflows := rfl
+
+theorem emit_bflows (r : Ring) : r.emit.1.bflows = r.bflows := by
+  unfold Ring.emit; simp only []
+  generalize (r.built.reverse).filter (fun c => !c.flows.isEmpty) = cs
+  induction cs generalizing r with
+  | nil => rfl
+  | cons c cs ih => simp only [List.foldl_cons]; rw [ih]; rfl
+
+theorem rollover_bflows (r : Ring) (sink : Bool) : (r.rollover sink).1.bflows = r.bflows.set (r.idxAdd r.head 1) [] := by
+  unfold Ring.rollover
+  simp only []
+  split
+  · rw [emit_bflows]
+  · rfl
+
+theorem getD_set_self {α : Type} (l : List α) (i : Nat) (v d : α) (h : i < l.length) : (l.set i v).getD i d = v := by
+  simp [List.getD_eq_getElem?_getD, List.getElem?_set_self h]
+
+theorem getD_set_ne {α : Type} (l : List α) (i j : Nat) (v d : α) (h : i ≠ j) : (l.set i v).getD j d = l.getD j d := by
+  simp [List.getD_eq_getElem?_getD, List.getElem?_set_ne h]
+
+structure SInv (r : Ring) (log : Log) : Prop where
+  g : GInv r log
+  len : r.bflows.length = r.n
+  f : FInv r log
+
+theorem addFlow_sinv {r : Ring} {log : Log} (hs : SInv r log) (key : Nat) (t cnt : Int) :
+    SInv (r.addFlow key t cnt).1 (if (r.addFlow key t cnt).2 then (key, t, cnt) :: log else log) := by
+  have hg := addFlow_ginv hs.g key t cnt
+  cases hf : r.findBucket t with
+  | none =>
+    have : r.addFlow key t cnt = (r, false) := by simp [Ring.addFlow, hf]
+    rw [this]; exact hs
+  | some i0 =>
+    obtain ⟨hacc, _, hlay⟩ := addFlow_accept r key t cnt i0 hf
+    obtain ⟨ht1, ht2⟩ := findBucket_sound' r t i0 hf
+    obtain ⟨i', hi', hf', hcn⟩ := contig_findBucket hs.g.contig t ht2 ht1
+    have hii : i0 = i' := by rw [hf] at hf'; exact Option.some.inj hf'
+    subst hii
+    have hbf : (r.addFlow key t cnt).1.bflows = r.bflows.set i0 ((key, cnt) :: r.bflows.getD i0 []) := by
+      simp only [Ring.addFlow, hf, Ring.setBucket]
+    have hcont : ∀ i, ((r.addFlow key t cnt).1.bucket i).contains = (r.bucket i).contains := by
+      intro i; funext x; simp only [Bucket.contains, (hlay.bk i).1, (hlay.bk i).2]
+    refine ⟨hg, by rw [hbf, List.length_set, hlay.len]; exact hs.len, ?_⟩
+    rw [hacc]; simp only [if_true]
+    intro i hi
+    rw [hlay.len] at hi
+    rw [hbf]
+    unfold logOf
+    rw [hcont]
+    by_cases hii : i0 = i
+    · subst hii
+      rw [getD_set_self _ _ _ _ (by rw [hs.len]; exact hi)]
+      rw [List.filter_cons_of_pos (by simpa using hcn)]
+      simp only [List.map_cons]
+      rw [hs.f i0 hi]; rfl
+    · rw [getD_set_ne _ _ _ _ _ hii]
+      have hnot : (r.bucket i).contains t = false := by
+        cases hc : (r.bucket i).contains t with
+        | false => rfl
+        | true => exact absurd (contig_unique hs.g.contig t i i0 hi hi' hc hcn).symm hii
+      rw [List.filter_cons_of_neg (by simp [hnot])]
+      exact hs.f i hi
+
+theorem rollover_sinv {r : Ring} {log : Log} (hs : SInv r log) (sink : Bool) : SInv (r.rollover sink).1 log := by
+  have hg := rollover_ginv hs.g sink
+  have hsame := rollover_same r sink
+  have hc := hs.g.contig
+  refine ⟨hg, by rw [rollover_bflows, List.length_set, rollover_n]; exact hs.len, ?_⟩
+  intro i hi
+  rw [rollover_n] at hi
+  rw [rollover_bflows]
+  have hcont : ((r.rollover sink).1.bucket i).contains = (r.advance.bucket i).contains := by
+    funext x; simp only [Bucket.contains, (hsame.bk i).1, (hsame.bk i).2.1]
+  unfold logOf; rw [hcont]
+  by_cases hih : r.idxAdd r.head 1 = i
+  · subst hih
+    rw [getD_set_self _ _ _ _ (by rw [hs.len]; exact hi), advance_new hc]
+    symm
+    have : log.filter (fun e => ({ start := r.eoh, stop := r.eoh + r.interval, pushed := false, keys := [] } : Bucket).contains e.2.1) = [] := by
+      apply List.filter_eq_nil_iff.2
+      intro e he
+      have := hs.g.llt e he
+      simp [Bucket.contains]; intro h1; omega
+    rw [this]; rfl
+  · rw [getD_set_ne _ _ _ _ _ hih, advance_old r i hih]
+    exact hs.f i hi
+
+theorem emit_sinv {r : Ring} {log : Log} (hs : SInv r log) : SInv r.emit.1 log := by
+  have hsm := (emit_same r).1
+  refine ⟨emit_ginv hs.g, by rw [emit_bflows, show r.emit.1.n = r.n from hsm.len]; exact hs.len, ?_⟩
+  intro i hi
+  rw [show r.emit.1.n = r.n from hsm.len] at hi
+  rw [emit_bflows]
+  have hcont : (r.emit.1.bucket i).contains = (r.bucket i).contains := by
+    funext x; simp only [Bucket.contains, (hsm.bk i).1, (hsm.bk i).2.1]
+  unfold logOf; rw [hcont]; exact hs.f i hi
+
+theorem gstep_sinv {s : Ring × Log} (h : SInv s.1 s.2) (op : Op) : SInv (gstep s op).1 (gstep s op).2 := by
+  cases op with
+  | add k t c => exact addFlow_sinv h k t c
+  | roll sink => exact rollover_sinv h sink
+  | emit => exact emit_sinv h
+
+theorem grun_sinv {s : Ring × Log} (h : SInv s.1 s.2) (ops : List Op) : SInv (grun s ops).1 (grun s ops).2 := by
+  induction ops generalizing s with
+  | nil => exact h
+  | cons op ops ih => exact ih (gstep_sinv h op)
+
+
+theorem rollN_bflows (r : Ring) (m : Nat) (hl : r.bflows.length = r.n) (h : ∀ i, r.bflows.getD i [] = []) :
+    (rollN r m).bflows.length = (rollN r m).n ∧ ∀ i, (rollN r m).bflows.getD i [] = [] := by
+  induction m generalizing r with
+  | zero => exact ⟨hl, h⟩
+  | succ m ih =>
+    apply ih
+    · rw [rollover_bflows, List.length_set, rollover_n]; exact hl
+    · intro i
+      rw [rollover_bflows]
+      by_cases hi : r.idxAdd r.head 1 = i
+      · subst hi
+        by_cases hlt : r.idxAdd r.head 1 < r.bflows.length
+        · exact getD_set_self _ _ _ _ hlt
+        · rw [List.set_eq_of_length_le (Nat.le_of_not_lt hlt)]; exact h _
+      · rw [getD_set_ne _ _ _ _ _ hi]; exact h i
+
+theorem newRing_sinv (n : Nat) (interval now : Int) (pushAfter agg : Nat) (hn : 0 < n) (hi : 0 < interval) :
+    SInv (newRing n interval now pushAfter agg) [] := by
+  have hg := newRing_ginv n interval now pushAfter agg hn hi
+  have hb : (newRing n interval now pushAfter agg).bflows.length = (newRing n interval now pushAfter agg).n ∧
+      ∀ i, (newRing n interval now pushAfter agg).bflows.getD i [] = [] := by
+    rw [newRing_eq]
+    apply rollN_bflows
+    · simp [initRing, Ring.n]
+    · intro i
+      simp only [initRing, List.getD_eq_getElem?_getD]
+      cases hh : (List.replicate n ([] : List (Nat × Int)))[i]? with
+      | none => rfl
+      | some b => have := List.mem_of_getElem? hh; rw [List.mem_replicate] at this; simp [this.2]
+  exact ⟨hg, hb.1, fun i _ => by rw [hb.2 i]; rfl⟩
+
+/-- `statistics_eq_sum_retained`: on a ring satisfying the invariant, `Statistics` over a range is the per-key
+sum (`statsOfFlows`) over the LOG of accepted flows, restricted bucket by bucket to the buckets of the range -/
+theorem stats_eq_log {r : Ring} {log : Log} (hs : SInv r log) (typ : Nat) (gb : Bool) (gte lt : Int)
+    (hidx : ∀ idxs, r.statRange gte lt = some idxs → ∀ i ∈ idxs, i < r.n) :
+    r.stats typ gb gte lt =
+      (r.statRange gte lt).map (fun idxs => statsOfFlows typ gb (idxs.map (fun i => logOf log (r.bucket i)))) := by
+  unfold Ring.stats
+  cases hr : r.statRange gte lt with
+  | none => rfl
+  | some idxs =>
+    simp only [Option.map_some]
+    congr 2
+    apply List.map_congr_left
+    intro i hi
+    exact hs.f i (hidx idxs hr i hi)
+
+theorem iterIdx_lt (r : Ring) (hn : 0 < r.n) (fuel s e : Nat) (hs : s < r.n) : ∀ i ∈ r.iterIdx fuel s e, i < r.n := by
+  induction fuel generalizing s with
+  | zero => simp [Ring.iterIdx]
+  | succ f ih =>
+    rw [Ring.iterIdx]
+    split
+    · simp
+    · intro i hi
+      simp only [List.mem_cons] at hi
+      rcases hi with rfl | hi
+      · exact hs
+      · exact ih (r.idxAdd s 1) (idxAdd_lt r _ _ hn) i hi
+
+theorem findBucket_lt {r : Ring} (hc : Contig r) (t : Int) (i : Nat) (h : r.findBucket t = some i) : i < r.n := by
+  obtain ⟨ht1, ht2⟩ := findBucket_sound' r t i h
+  obtain ⟨i', hi', hf', _⟩ := contig_findBucket hc t ht2 ht1
+  rw [h] at hf'; cases hf'; exact hi'
+
+theorem statRange_lt {r : Ring} (hc : Contig r) (gte lt : Int) (idxs : List Nat) (h : r.statRange gte lt = some idxs) :
+    ∀ i ∈ idxs, i < r.n := by
+  unfold Ring.statRange at h
+  simp only [] at h
+  split at h
+  · rename_i s e hs he
+    cases h
+    apply iterIdx_lt r hc.npos
+    split at hs
+    · cases hs; exact idxAdd_lt r _ _ hc.npos
+    · exact findBucket_lt hc gte s hs
+  · cases h
 
 end CalicoVerif.C32
